@@ -3,8 +3,8 @@
 D=$1; T=$2; shift 2
 cd /repo || exit 2
 if [ -n "$(git status --porcelain)" ]; then echo "/repo not clean"; exit 2; fi
+trap 'git -C /repo reset -q --hard HEAD; git -C /repo clean -fdq' EXIT
 git apply "$D/patch.diff" 2>/dev/null || git apply --3way "$D/patch.diff" || { echo "patch does not apply"; exit 2; }
-trap 'git -C /repo checkout -- . ; git -C /repo clean -fdq' EXIT
 for P in "$@"; do
   out=$(cd /verif && VERIF_ROOT=/verif ./check $P $T 2>&1)
   rc=$?
